@@ -5,7 +5,8 @@ by the joiner's handlers in that order.
 
 Code modelled: `full_sync::check_entity_components` — per archetype that contains `SyncEntity`: `EntitySpawn` for every
 tracked entity of the archetype, then, per registered and not excluded component of the archetype, `ComponentUpdated` for
-every entity (one that cannot be encoded is skipped); `check_parents` — after all archetypes: `EntityParented` for every
+every entity (one that cannot be encoded is skipped); `build_full_sync` then moves every `EntitySpawn` to the front (stable;
+repair of D21); `check_parents` — after all archetypes: `EntityParented` for every
 tracked entity whose parent is tracked; the client's handlers (`client/receiver.rs`): `EntitySpawn` inserts into the uuid map at
 once unless the uuid is known (duplicate guard), `ComponentUpdated` and `EntityParented` look their uuids up in that map and
 are dropped when one is unknown.  The client's world is kept as what the lookups see: known uuids in spawn order, component
@@ -32,6 +33,7 @@ deriving Repr, DecidableEq
 
 def compMsg (t : Nat) (e : HEnt) : Option Msg := (e.vals.lookup t).map (Msg.comp e.uuid t)
 
+/-- what `check_entity_components` pushes for one archetype -/
 def archMsgs (a : Arch) : List Msg :=
   a.ents.map (fun e => Msg.spawn e.uuid) ++ a.types.flatMap (fun t => a.ents.filterMap (compMsg t))
 
@@ -39,8 +41,19 @@ def parentMsg (e : HEnt) : Option Msg := e.parent.map (Msg.parent e.uuid)
 
 def allEnts (w : World) : List HEnt := w.flatMap (·.ents)
 
-/-- `build_full_sync`, entity part -/
-def snapshot (w : World) : List Msg := w.flatMap archMsgs ++ (allEnts w).filterMap parentMsg
+def isSpawn : Msg → Bool
+  | .spawn _ => true
+  | _ => false
+
+/-- `result.sort_by_key(|msg| !matches!(msg, EntitySpawn))`: a stable sort on a Boolean key is the spawns in their order
+followed by everything else in its order (since the repair of D21; before it the list was sent as pushed) -/
+def spawnsFirst (ms : List Msg) : List Msg := ms.filter isSpawn ++ ms.filter (fun m => !isSpawn m)
+
+/-- `build_full_sync`, entity part; `sorted = false` is the order before the repair of D21 -/
+def snapshotG (sorted : Bool) (w : World) : List Msg :=
+  (if sorted then spawnsFirst (w.flatMap archMsgs) else w.flatMap archMsgs) ++ (allEnts w).filterMap parentMsg
+
+def snapshot (w : World) : List Msg := snapshotG true w
 
 structure Client where
   ents : List Nat := []                    -- uuids in the map, in the order they were inserted
